@@ -64,6 +64,34 @@ class OrderedScan(set):
     seq = ()
 
 
+def caller_frame_offsets(cg, fn):
+    """{'globals': k, 'locals': k}: `globals = sys._getframe(<depth parameter> + k).f_globals` (directly or through a local holding the frame),
+    counting `depth += c` statements that every path to the read passes; None for a form the rule cannot read"""
+    g = cg.cfg(fn)
+    defs = {}
+    for x in g.nodes:
+        if x.kind == 'stmt' and isinstance(x.ast, ast.Assign) and len(x.ast.targets) == 1 and isinstance(x.ast.targets[0], ast.Name):
+            defs.setdefault(x.ast.targets[0].id, []).append(x)
+    out = {}
+    for x in g.nodes:
+        if not (x.kind == 'stmt' and isinstance(x.ast, ast.Assign) and len(x.ast.targets) == 1 and dotted(x.ast.targets[0]) in ('globals', 'locals')): continue
+        v = x.ast.value
+        if not (isinstance(v, ast.Attribute) and v.attr in ('f_globals', 'f_locals')): continue
+        if v.attr != 'f_' + dotted(x.ast.targets[0]): out[dotted(x.ast.targets[0])] = None; continue
+        fr, at = v.value, x
+        if isinstance(fr, ast.Name) and len(defs.get(fr.id, ())) == 1: at = defs[fr.id][0]; fr = at.ast.value
+        if not (isinstance(fr, ast.Call) and dotted(fr.func) == 'sys._getframe' and len(fr.args) == 1): out[dotted(x.ast.targets[0])] = None; continue
+        a = fr.args[0]; k = 0
+        if isinstance(a, ast.BinOp) and isinstance(a.op, ast.Add) and isinstance(a.right, ast.Constant) and isinstance(a.right.value, int): k = a.right.value; a = a.left
+        if not (isinstance(a, ast.Name) and a.id in fn.params): out[dotted(x.ast.targets[0])] = None; continue
+        for y in g.nodes:
+            if y.kind == 'stmt' and isinstance(y.ast, ast.AugAssign) and dotted(y.ast.target) == a.id:
+                if isinstance(y.ast.op, ast.Add) and isinstance(y.ast.value, ast.Constant) and g.dominated(at, [y]) and at.id not in g.reach([at], include_src=False): k += y.ast.value.value
+                elif at.id in g.reach([y]): k = None; break
+        out[dotted(x.ast.targets[0])] = k
+    return out
+
+
 def run(ctx):
     repo, cg = ctx.repo, ctx.cg
     ad = repo.fn(CORE, 'adapt_sql'); pr = repo.fn('pony.orm.ormtypes', 'parse_raw_sql')
@@ -99,33 +127,29 @@ def run(ctx):
             ctx.ob('C30-SCAN.siblings-scan-in-the-same-order', pr, '%s  <>  %s' % (t1, t2), True, '', nontrivial=False)
     ctx.floor('C30-SCAN', npairs, 5, 'dependent statement pairs common to both scanners')
     # ---------------------------------------------------------------- ORDER
-    chain = None
-    for s in walk_no_nested(ad.node):
-        if isinstance(s, ast.If) and norm(s.test).startswith('paramstyle =='): chain = s; break
-    ctx.need(chain is not None, 'C30: paramstyle chain not found in adapt_sql')
-    seen = {}
-    cur = chain
-    while True:
-        t = cur.test
-        style = t.comparators[0].value if isinstance(t, ast.Compare) and isinstance(t.comparators[0], ast.Constant) else None
-        seen[style] = cur.body
-        if len(cur.orelse) == 1 and isinstance(cur.orelse[0], ast.If): cur = cur.orelse[0]
-        else:
-            tail = cur.orelse; break
-    ok = set(seen) == set(STYLES)
-    ctx.ob('C30-ORDER.all-five-paramstyles-handled', ad, chain, ok, '' if ok else 'adapt_sql handles %s, DB-API defines %s' % (sorted(map(str, seen)), sorted(STYLES)))
-    ok = any(dotted(c.func) == 'throw' and c.args and dotted(c.args[0]) == 'NotImplementedError' for s in tail for c in calls_in(s))
-    ctx.ob('C30-ORDER.unknown-paramstyle-raises', ad, chain, ok, '' if ok else 'an unknown paramstyle falls through silently')
-    for style, body in seen.items():
-        if style not in STYLES: continue
-        txt = [norm(s) for s in body]
-        kind = STYLES[style]
+    # scenario evaluation (one run of the function per paramstyle, shared with C06-STYLES): what each style executes beyond the common part
+    from .C06 import style_scenarios
+    per, mentioned, handled, ok_unknown = style_scenarios(cg, ad)
+    ok = handled == set(STYLES) and mentioned == set(STYLES)
+    ctx.ob('C30-ORDER.all-five-paramstyles-handled', ad, ad.node, ok, '' if ok else 'adapt_sql handles %s (mentions %s), DB-API defines %s' % (sorted(handled), sorted(mentioned), sorted(STYLES)))
+    ctx.ob('C30-ORDER.unknown-paramstyle-raises', ad, ad.node, ok_unknown, '' if ok_unknown else 'an unknown paramstyle falls through silently')
+    g_ad = cg.cfg(ad)
+    def nodes_with(pred): return [x for x in g_ad.nodes if x.kind == 'stmt' and x.ast is not None and pred(norm(x.ast))]
+    for style, kind in STYLES.items():
+        txt = [t for t in per.get(style, [])]
+        pos = [t for t in txt if t == 'args.append(expr)']
+        keyed = [t for t in txt if t == 'kwargs[key] = expr']
+        place = [t for t in txt if t.startswith('result.append(')]
+        keydef = [t for t in txt if t.startswith('key = ')]
         if kind == 'args':
-            ok = txt[0] == 'args.append(expr)' and len(txt) == 2 and txt[1].startswith('result.append(')
-            if style == 'numeric': ok = ok and txt[1] == "result.append(':%d' % len(args))"
+            ok = len(pos) == 1 and not keyed and len(place) == 1
+            if ok and style == 'numeric':
+                # the number in the placeholder is the count of expressions recorded so far, this one included
+                ok = place[0] == "result.append(':%d' % len(args))" and \
+                    all(g_ad.dominated(r, nodes_with(lambda t: t == 'args.append(expr)')) for r in nodes_with(lambda t: t == place[0]))
         else:
-            ok = len(txt) == 3 and txt[0] == "key = 'p%d' % (len(kwargs) + 1)" and txt[1] == 'kwargs[key] = expr' and txt[2].startswith('result.append(') and 'key' in txt[2]
-        ctx.ob('C30-ORDER.placeholder-and-expression-recorded-together', ad, chain, ok,
+            ok = len(keyed) == 1 and not pos and len(place) == 1 and 'key' in place[0] and len(keydef) == 1 and 'len(kwargs)' in keydef[0] and "'p%d' %" in keydef[0]
+        ctx.ob('C30-ORDER.placeholder-and-expression-recorded-together', ad, ad.node, ok,
                '' if ok else 'paramstyle %r: placeholder/expression bookkeeping is %s' % (style, txt), expected='record the expression, then append its placeholder').key += '::' + style
     src = [norm(s) for s in walk_no_nested(ad.node) if isinstance(s, ast.Assign) and any(dotted(t) == 'source' for t in s.targets)]
     ok = "source = '(%s,)' % ', '.join(args)" in src and any(t.startswith("source = '{%s}' % ','.join(") and 'kwargs.items()' in t for t in src)
@@ -159,7 +183,7 @@ def run(ctx):
     ok = 'adapted_sql, code = adapt_sql(sql, provider.paramstyle)' in txt and 'arguments = eval(code, globals, locals)' in txt \
         and any(t.startswith('return %s._exec_sql(adapted_sql, arguments' % er.recv) for t in txt)
     ctx.ob('C30-EVAL.expressions-evaluated-in-caller-scope', er, er.node, ok, '' if ok else '_exec_raw_sql: %s' % txt[-4:])
-    ok = any('sys._getframe(frame_depth).f_globals' in t for t in txt) and any('sys._getframe(frame_depth).f_locals' in t for t in txt)
+    ok = caller_frame_offsets(cg, er) == {'globals': 1, 'locals': 1}
     ctx.ob('C30-EVAL.caller-frame-used-when-no-scope-given', er, er.node, ok, '' if ok else '_exec_raw_sql does not take globals/locals from the caller frame')
     # ---------------------------------------------------------------- FRAGMENT
     # raw_sql() fragments inside queries: every occurrence of a `$expression` is bound to its OWN parameter, numbered by its position (the value
@@ -188,6 +212,7 @@ MUTANTS = [
     dict(id='C30-m4', file='pony/orm/core.py', fn='adapt_sql', old="            elif paramstyle == 'numeric':\n                args.append(expr)\n                result.append(':%d' % len(args))", new="            elif paramstyle == 'numeric':\n                result.append(':%d' % len(args))\n                args.append(expr)", expect='C30-ORDER.placeholder'),
     dict(id='C30-m5', file='pony/orm/core.py', fn='adapt_sql', old="    if paramstyle in ('format', 'pyformat'): sql = sql.replace('%', '%%')", new="    if paramstyle in ('format',): sql = sql.replace('%', '%%')", expect='C30-PERCENT.doubled'),
     dict(id='C30-m6', file='pony/orm/core.py', fn='adapt_sql', old="        adapted_sql = original_sql.replace('$$', '$')", new="        adapted_sql = sql.replace('$$', '$')", expect='C30-PERCENT.no-parameters'),
-    dict(id='C30-m7', file='pony/orm/core.py', fn='adapt_sql', old="                key = 'p%d' % (len(kwargs) + 1)\n                kwargs[key] = expr\n                result.append(':' + key)", new="                key = 'p%d' % len(kwargs)\n                kwargs[key] = expr\n                result.append(':' + key)", expect='C30-ORDER.placeholder'),
+    dict(id='C30-m7', file='pony/orm/core.py', fn='adapt_sql', old="                key = 'p%d' % (len(kwargs) + 1)\n                kwargs[key] = expr\n                result.append(':' + key)", new="                key = 'p%d' % len(kwargs)\n                kwargs[key] = expr\n                result.append(':' + key)", expect='C30-ORDER.placeholder', benign=True),
+    dict(id='C30-m11', file='pony/orm/core.py', fn='Database._exec_raw_sql', old='            frame_depth += 1\n            globals = sys._getframe(frame_depth).f_globals', new='            globals = sys._getframe(frame_depth).f_globals', expect='C30-EVAL.caller-frame'),
     dict(id='C30-m8', file='pony/orm/core.py', fn='Database._exec_raw_sql', old='        arguments = eval(code, globals, locals)', new='        arguments = eval(code, globals)', expect='C30-EVAL'),
 ]
